@@ -309,6 +309,22 @@ def stepDidKey (j : Json) : String :=
       keyLength := jNat j "keyLength", rsaSize := optNat j "rsaSize", vmOk := jBool j "vmOk" }
   cls (DidKey.resolve Sites.didKeyCfg i) (fun _ => "")
 
+def libOf (s : String) : DidWeb.Lib := if s == "ok" then .ok else if s == "panic" then .panic else .err
+
+def stepDidnutsCallback (j : Json) : String :=
+  let i : Ambassador.In :=
+    { payloadTypeOk := jBool j "ptOk", payloadHashSet := jBool j "hashSet", signingTimeSet := jBool j "timeSet",
+      nullEntries := jBool j "nullEntries", unmarshal := libOf (jStr j "unmarshal"), validateOk := jBool j "validateOk",
+      handled := match jStr j "handled" with | "db" => .dbErr | "other" => .otherErr | _ => .ok }
+  let c := Sites.ambassadorCfg
+  match Ambassador.handleNetworkEvent c i with
+  | .panic s => "panic:" ++ s
+  | .err e => "err:" ++ e
+  | .ok ev =>
+    let evs := match ev with | .done => "done" | .retry => "retry" | .fatal => "fatal"
+    let cb := match Ambassador.callback c i with | .ok _ => "ok" | .err e => "err:" ++ e | .panic s => "panic:" ++ s
+    s!"ev={evs} cb={cb}"
+
 def step (st : Unit) (j : Json) : Unit × List String :=
   match jStr j "op" with
   | "dpop" => (st, [stepDpop j])
@@ -325,6 +341,7 @@ def step (st : Unit) (j : Json) : Unit × List String :=
   | "callback" => (st, [stepCallback j])
   | "slc.update" => (st, [stepSlcUpdate j])
   | "didkey" => (st, [stepDidKey j])
+  | "didnuts.callback" => (st, [stepDidnutsCallback j])
   | o => (st, ["bad-op:" ++ o])
 
 end Nuts.Drv.C19
